@@ -23,7 +23,7 @@ LEVEL_NOTE = "Trusts numpy datetime64 arithmetic for decoding results and icontr
 RULE = ("case = chunk of (start, stop, dt, reference, direction) combinations; thorough adds the exhaustive lattice start,stop in 0..40 s, dt in 1..7 s, "
         "reference in {none, start-5, start+3}; every combination is stepped Nsteps+2 times and probed at steps -5..Nsteps+5. Non-trivial: Nsteps >= 1; "
         "distinct by (duration, dt, direction, reference offset).")
-MANDATORY = ["output_period_not_a_whole_number_of_steps", "output_file_time_values_checked", "forward", "reversed", "dt_not_dividing", "explicit_reference", "negative_steps_probed", "invariant_evaluations",
+MANDATORY = ["zero_period_spellings", "reference_time_decades_before_the_run", "output_period_not_a_whole_number_of_steps", "output_file_time_values_checked", "forward", "reversed", "dt_not_dividing", "explicit_reference", "negative_steps_probed", "invariant_evaluations",
              "period_spellings_compared", "malformed_rejected", "resets_checked", "positioned_clock_updates"]
 ASSUMPTIONS = ["step2nctime is exercised with the documented units s, m, h only",
                "negative periods and a trailing newline are accepted by normalize_period and are not called malformed by the property"]
@@ -221,6 +221,17 @@ def _periods(case, V, sit, cnt, keys):
             h, m, s = [(0, 0, 1), (1, 0, 0), (0, 1, 0)][i]
         total = 3600 * h + 60 * m + s
         if total == 0:
+            # the zero period in all its spellings
+            for sp in (0, np.timedelta64(0, "s"), datetime.timedelta(0), [0, "s"], [0, "m"], "PT0S", "PT0M", "PT0H", "PT0H0M0S", "PT00M"):
+                cnt["period_calls"] = cnt.get("period_calls", 0) + 1
+                try:
+                    got = normalize_period(sp)
+                except Exception as e:  # noqa: BLE001
+                    V.append(C.viol(f"accepted spelling {sp!r} of the zero period rejected: {type(e).__name__}: {e}"))
+                    continue
+                sit["zero_period_spellings"] = sit.get("zero_period_spellings", 0) + 1
+                if got / one != 0:
+                    V.append(C.viol(f"normalize_period({sp!r}) = {got!r}, the duration is 0 s"))
             continue
         spellings: list[Any] = [total, np.timedelta64(total, "s"), datetime.timedelta(seconds=total), [total, "s"], f"PT{total}S"]
         iso = "PT" + (f"{h}H" if h else "") + (f"{m}M" if m else "") + (f"{s}S" if s else "")
@@ -267,7 +278,8 @@ def _outfile(case, wd, V, sit, cnt, keys):
     mult = [1.5, 2.0, 2.5, 1.0, 3.0, 1.25][case["idx"] % 6]  # output period in steps, whole or not
     per_s = int(round(mult * dt))
     spell = [per_s, [per_s, "s"], f"PT{per_s // 60}M{per_s % 60}S" if per_s % 60 else [per_s // 60, "m"]][case["idx"] % 3]
-    ref = [None, "2020-01-01T00:00:00", "2020-03-05T12:00:00"][case["idx"] % 3]
+    ref = [None, "2020-01-01T00:00:00", "2020-03-05T12:00:00", "1970-01-01T00:00:00", "1900-01-01T00:00:00"][case["idx"] % 5]
+    sit["reference_time_decades_before_the_run"] = int(case["idx"] % 5 >= 3)
     start = C.T0
     sg = -1 if rev else 1
     lo, hi = sorted([start, str(tadd(start, sg * (ns + 1) * dt))])
